@@ -20,6 +20,7 @@ FORCED = {
     '_ZSt7getlineIcSt11char_traitsIcESaIcEERSt13basic_istreamIT_T0_ES7_RNSt7__cxx1112basic_stringIS4_S5_T1_EE',
     '_ZSt16__ostream_insertIcSt11char_traitsIcEERSt13basic_ostreamIT_T0_ES6_PKS3_l',
     '_ZNSolsEi', '_ZNSolsEl', '_ZNSo9_M_insertIlEERSoT_', '_ZNSo9_M_insertImEERSoT_', '_ZNSolsEj', '_ZNSolsEm',
+    '_ZSt4endlIcSt11char_traitsIcEERSt13basic_ostreamIT_T0_ES6_', '_ZSt5flushIcSt11char_traitsIcEERSt13basic_ostreamIT_T0_ES6_',
     '_ZNSi4readEPcl', '_ZNSo5writeEPKcl', '_ZNSo5flushEv', '_ZNSi5tellgEv', '_ZNSi5seekgElSt12_Ios_Seekdir', '_ZNSi5seekgESt4fposI11__mbstate_tE',
     '_ZNSo5tellpEv', '_ZNSo5seekpElSt12_Ios_Seekdir', '_ZNSo5seekpESt4fposI11__mbstate_tE', '_ZNSo3putEc', '_ZNSi3getEv', '_ZNSi4peekEv',
     '_ZNSt9basic_iosIcSt11char_traitsIcEE5clearESt12_Ios_Iostate',
@@ -253,7 +254,9 @@ def builtin(ex, st, fr, name, a, x, work):
         return a[0]
     if name == '_ZNSo3putEc':
         mf = mf_get(st, fid_of(st, a[0])); emit(ex, st, mf, [a[1]]); return a[0]
-    if name == '_ZNSo5flushEv': return a[0]
+    if name == '_ZNSo5flushEv' or name == '_ZSt5flushIcSt11char_traitsIcEERSt13basic_ostreamIT_T0_ES6_': return a[0]
+    if name == '_ZSt4endlIcSt11char_traitsIcEERSt13basic_ostreamIT_T0_ES6_':
+        S.add('std::endl -> newline'); mf = mf_get(st, fid_of(st, a[0])); emit(ex, st, mf, [10]); return a[0]
     if name in ('_ZNSo5seekpElSt12_Ios_Seekdir', '_ZNSo5seekpESt4fposI11__mbstate_tE'):
         S.add('std::ostream::seekp -> memfile'); mf = mf_get(st, fid_of(st, a[0])); off = a[1]
         if not isc(off): raise Violation('unsupported', 'symbolic seek offset', st)
@@ -503,6 +506,13 @@ def plant(ex, st, p, mf, kind):
     ex.store_val(st, Ptr(p.obj, p.off + iosoff + IOS_WIDTH_OFF), I64, 0)
     ex.store_val(st, Ptr(p.obj, p.off + iosoff + IOS_PREC_OFF), I64, 6)
     ex.store_val(st, Ptr(p.obj, p.off + iosoff + IOS_FLAGS_OFF), I32, 0x1002)   # skipws | dec
+    # basic_ios::_M_ctype: a fake std::ctype<char> facet with identity widen/narrow tables (std::endl and widen() are inlined)
+    ct = getattr(st, 'fake_ctype', None)
+    if ct is None or ct not in st.objs:
+        ct = ex.new_obj(st, 576, 'fake std::ctype<char>', kind='zero'); st.fake_ctype = ct
+        o = st.objs[ct]; o.cells[56] = (1, 1); o.cells[569] = (1, 1)
+        for ch in range(256): o.cells[57 + ch] = (1, ch); o.cells[313 + ch] = (1, ch)
+    ex.store_val(st, Ptr(p.obj, p.off + iosoff + 240), PTR(I8), Ptr(ct, 0))
     ex.store_val(st, Ptr(p.obj, p.off + iosoff + IOS_FILL_OFF), I8, 32)
     ex.store_val(st, Ptr(p.obj, p.off + iosoff + IOS_FILL_OFF + 1), I8, 1)       # _M_fill_init
 
